@@ -75,6 +75,20 @@ CHECKS = {
              'original top-level type are compared between the original and each arrangement for all codecs.',
         note='Same-module inlining only, tags stay at the use site; compiler crashes (non-asn1tools exceptions) on an arrangement are counted, '
              'library CompileError is a violation.'),
+    'C03': dict(
+        category='exploration', design_ref='DESIGN.md 4 C03',
+        technique='runtime monitoring: reference-model oracle (independent X.690 DER encoder from my AST + independent TLV reader) and equal-value metamorphic checks',
+        text='Every DER encoding produced by the library for generated modules/values is compared byte-for-byte with my own DER encoder (tagging '
+             'incl. AUTOMATIC/IMPLICIT/EXPLICIT and CHOICE, canonical SET/SET OF order, DEFAULT omission, minimal lengths/integers/tags, REAL, '
+             'named bits), re-read by my TLV parser, and re-encoded from abstractly equal spellings of the same value.',
+        note='Trusts vf/models/x690.py (X.690 worked-example self-test gates the run); undecided cases are counted and skipped.'),
+    'C04': dict(
+        category='exploration', design_ref='DESIGN.md 4 C04',
+        technique='runtime monitoring: metamorphic oracle over BER re-serialisations written by an independent TLV library from a type-directed annotation of the encoder output',
+        text='The encoder TLV tree is annotated from my AST (which nodes are strings, bit strings, SETs) and rewritten: per node definite/padded/'
+             'indefinite length, strings segmented up to depth 3, SETs permuted, in all 15 non-empty combinations; every variant is re-parsed by '
+             'my strict reader and must decode to the encoded value.',
+        note='Variants come from my writer only (the 2^4 combination table is reported); time types are not segmented.'),
 }
 
 NOT_YET = 'check under construction in this revision (DESIGN.md section 4); not claimed yet'
